@@ -27,5 +27,5 @@ MANIFEST = {
   'level_text': 'Bounded model checking of the two kernels that keep appended populations apart: (1) for every session maximum id up to 10^9 the append offset is a multiple of 1000 above every earlier id and shifting cannot collide; (2) for every reference token within the byte bound and every offset, ReadEntityRef looks up exactly the shifted id and returns the instance registered under it, never the bearer of the unshifted number, and reports unresolved references.',
   'level_note': 'Trusted: CBMC (incl. its IEEE float encoding), ir2c, vstd, harness instance-manager double. Outside the claim: that every reference-reading path (aggregates, SELECT, complex parts) passes the offset down, id shifting in CreateInstance, the written file after Read+Append.',
   'technique': 'CBMC bounded model checking of IR-translated STEPfile::SetFileIdIncrement (floating point) and ReadEntityRef with symbolic offset and ids',
-  'design_ref': 'DESIGN.md section 3, C14',
+  'design_ref': 'DESIGN.md section 2, C14',
 }
